@@ -30,7 +30,7 @@ EPS = 1e-5
 
 
 def gen_cases(tier, seed):
-    n = 200 if tier == "quick" else 3000
+    n = 600 if tier == "quick" else 6000
     for i in range(n):
         yield {"seed": seed, "i": i, "pid": PID}
 
@@ -108,7 +108,13 @@ def record_prioritisation(full):
     dmod.sorted = rec_sorted
     dmod.Distributed.step = step
     try:
-        r = scen.run_real(full, timeout_s=90)
+        # the complete step (virtual worlds, delegation, battery support, surplus pass) is tied to its model as well
+        import steptie
+        with steptie.tie_for(full) as tie:
+            r = scen.run_real(full, timeout_s=90)
+        if not r.get("timeout"):
+            lines += tie.lines
+            impl += tie.impl
     finally:
         dmod.Distributed.step = orig_step
         del dmod.sorted
@@ -176,3 +182,11 @@ def eval_case(case):
             stats.append(stype)
     return {"lines": lines, "impl": impl, "violations": viol, "nontrivial": charged or bool(r.get("step_i")),
             "stats": stats, "replay_case": full, "num": {"rankings_compared": len(lines)}}
+
+
+def compare(case, impl, model):
+    import steptie
+    handled, d = steptie.compare(impl, model)
+    if handled:
+        return d
+    return None if impl == model else "differs"
